@@ -47,7 +47,7 @@ def _loads(text: Optional[str]) -> Tuple[bool, Any]:
         return False, None
     try:
         return True, json.loads(text)
-    except ValueError:
+    except (ValueError, RecursionError):
         return False, None
 
 
